@@ -38,7 +38,13 @@ Definition res_agree (m : out nres) (i : pres) : bool :=
 
 (* bits: 1 agree | 2 C01 hard constraints (node's cancelled set) | 4 valid instance and well-formed node | 8 NoSolution | 16 Infeasible
    | 32 Feasible | 64 implementation panicked | 128 C08 score = score_of | 256 C06 housed | 512 hard constraints with canonical K
-   | 1024 model outcome is a panic site or Overflow *)
+   | 1024 model outcome is a panic site or Overflow
+   | 2048 if the node has them, every child of an Infeasible answer of the IMPLEMENTATION keeps the invariants of generated subproblems: no fixed course
+     cancelled (NodeWf.NoFix), node_wfb, no shrink bound below a minimum size (WfPres.Wf2) *)
+Definition kids_okb (courses : list course) (ics : list pnode) : bool :=
+  forallb (fun pn' => let nd' := mk_node pn' in
+             forallb (fun c0 => negb (c_fixed (crs courses c0))) (n_cancel nd') && node_wfb courses nd' &&
+             forallb (fun cs : nat * nat => (fst cs <? length courses) && (c_min (crs courses (fst cs)) <=? snd cs)) (n_shrink nd')) ics.
 Definition check_node (c : node_case) : N :=
   let '(pcs, pps, rooms, pn, ires) := c in
   let courses := map mk_course pcs in let parts := map mk_part pps in let params := mk_params pcs in
@@ -60,4 +66,7 @@ Definition check_node (c : node_case) : N :=
   ((if agree then 1 else 0) + (if hard then 2 else 0) + (if cls then 4 else 0) +
    (match ires with PNoSol => 8 | PInf _ _ => 16 | PFeas _ _ => 32 | PPanic => 64 end) +
    (if score_ok then 128 else 0) + (if housed then 256 else 0) + (if hardc then 512 else 0) +
-   (match model with Val _ => 0 | _ => 1024 end))%N.
+   (match model with Val _ => 0 | _ => 1024 end) +
+   (match ires with
+    | PInf ics _ => if negb (kids_okb courses [pn]) || kids_okb courses ics then 2048 else 0
+    | _ => 2048 end))%N.
